@@ -17,7 +17,8 @@ for m in sorted(glob.glob(os.path.join(V, 'seeded', '*', 'meta.json'))):
 with open(os.path.join(V, 'seeded', 'INDEX.md'), 'w') as f:
     f.write('# Seeded changes\n\nWritten by independent sub-agents from the property text only (own scratch worktree, nothing from /verif). '
             'Each was confirmed here: the demonstration exits 0 on the clean tree and 1 with the patch, the pinned test-suite still passes with the patch '
-            '(tools/seedeval.py), then the patch was applied to /repo, the quick check run, and the patch undone.\n\n')
+            '(tools/seedeval.py), then the patch was applied to /repo, the quick check run, and the patch undone (round 7, k = 15 / 16: '
+            'tools/seedphaseA.py + tools/seedeval_par.py, the patch applied to the property\'s own scratch worktree of /repo at HEAD and the check run with VERIF_REPO pointing there; the commands are in each meta.json; "first_try" there is the verdict before the round-7 strengthening).\n\n')
     f.write('| change | property | confirmed | rejected by (quick tier) | first rejecting clause | what it is |\n|---|---|---|---|---|---|\n')
     for r in rows:
         f.write('| %s | %s | %s | %s | %s | %s |\n' % tuple(x.replace('|', '\\|') for x in r))
